@@ -124,6 +124,9 @@ func TestVerifBounded_C10_Batch(t *testing.T) {
 				if !thorough && ni == 3 && len(sc.sets) > 1 && pi%2 == 1 {
 					continue
 				}
+				if fails > 20 {
+					continue // enough counterexamples: every further failing case costs seconds of time-outs
+				}
 				cases++
 				id := fmt.Sprintf("c10:%s:outcomes=%d:order=%v", sc.name, oc, perm)
 				var mu sync.Mutex
